@@ -13,9 +13,9 @@ import common
 import reftrees as rt
 from common import coq_str, coq_list, coq_z, enc_str
 
-THEOREMS = ["C07_resolve_from", "C07_path", "C07_constraints", "C07_sound", "C07_resolve_sound",
-            "C07_err_dangling", "C07_err_childless", "C07_err_nonnumeric", "C07_err_unknown_id",
-            "C07_errors_only", "C07_int_of_str", "C07_value_objects", "C07_example"]
+THEOREMS = ["C07_resolve_from", "C07_path", "C07_constraints", "C07_sound", "C07_unique", "C07_resolve_sound",
+            "C07_err_dangling", "C07_err_childless", "C07_err_nonnumeric", "C07_err_unknown_id", "C07_err_resolve",
+            "C07_errors_only", "C07_int_of_str", "C07_value_objects", "C07_example_wf", "C07_example"]
 
 PRELUDE = ("From Coq Require Import List ZArith String.\n"
            "From Basyx Require Import gen.Gen_RefKeys model.Refs model.RefsObs.\nOpen Scope string_scope.")
@@ -306,8 +306,14 @@ def gen_queries(rng, aprov, facts, per_node, count):
                     ty = rng.choice([0, ty_ok])
                     listpos = [j for j in range(1, len(chain)) if chain[j][1]["c"] == "SubmodelElementList"]
                     idpos = [j for j in range(1, len(chain)) if chain[j][1]["c"] != "SubmodelElementList"]
-                    kind = rng.choice(["prefix", "trailing", "unknown", "oob", "nonnum", "pyint", "root", "firsttype",
-                                       "wrongtype", "ktnoise", "same"])
+                    kinds = ["trailing", "root", "firsttype", "wrongtype", "same"]
+                    if len(ks) > 1:
+                        kinds += ["prefix", "ktnoise"]
+                    if idpos:
+                        kinds += ["unknown", "unknown"]
+                    if listpos:
+                        kinds += ["oob", "nonnum", "pyint"] * 2
+                    kind = rng.choice(kinds)
                     if kind == "prefix" and len(ks) > 1:
                         ks = ks[:rng.randint(1, len(ks) - 1)]
                         ty = 0
@@ -546,11 +552,10 @@ def run(chk):
         aprov, queries = cases[bad[0]]
         obs, _ = run_queries(aprov, queries, facts)
         first = None
-        for q, o in zip(queries, obs):
-            b, e = common.run_mismatch_shards("C07s", PRELUDE, [coq_case(aprov, [q], [o], cls_index)], "check_case")
-            if b or e:
-                first = (q, o)
-                break
+        b, e = common.run_mismatch_shards("C07s", PRELUDE, [coq_case(aprov, [q], [o], cls_index) for q, o in zip(queries, obs)],
+                                          "check_case", shard=50)
+        if b:
+            first = (queries[b[0]], obs[b[0]])
         model = None
         if first:
             prov = coq_list(coq_list(rt.coq_tree(t, cls_index) for t in s) for s in aprov)
